@@ -84,6 +84,22 @@ def showFoot (l : List (Option Int × Rat)) : String :=
 def sameTable (a b : List (Option Int × Rat)) : Bool :=
   a.length == b.length && (a.zip b).all (fun (x, y) => x.1 == y.1 && close x.2 y.2)
 
+/-- `v` is within 1e-7 cents of the middle between two cents: the model's exact value and the
+    implementation's 28-digit decimal may then fall on different sides (near-threshold, skipped) -/
+def nearMid (v : Rat) : Bool :=
+  let y := rabs v * 100
+  rabs (y - (y.floor : Rat) - 1/2) ≤ 1 / pow10 7
+
+/-- default-mode table: equal to the model's, except where the model's full value is `nearMid`
+    (then either neighbouring cent is accepted).  Returns (same, some cell was near). -/
+def sameCents (mFull mDef impl : List (Option Int × Rat)) : Bool × Bool :=
+  if !(mFull.length == mDef.length && mDef.length == impl.length) then (false, false) else
+  let cells := (mFull.zip mDef).zip impl
+  let ok := cells.all (fun ((f, d), x) => d.1 == x.1 &&
+    (close d.2 x.2 || (nearMid f.2 && rabs (d.2 - x.2) ≤ 1 / 100 + 1 / pow10 9)))
+  let near := cells.any (fun ((f, d), x) => !close d.2 x.2 && nearMid f.2)
+  (ok, near)
+
 /-- correspondence: model vs implementation -/
 def gainsDiff (p : GainsParsed) : Option String :=
   let results : List SecResult := p.ok.map (fun (si, o) =>
@@ -95,7 +111,7 @@ def gainsDiff (p : GainsParsed) : Option String :=
     let md := footer false g
     if !sameTable mf (implF.map (fun f => (f.year, f.full))) then
       some s!"security {si} footer (full): model {showFoot mf} impl {showFoot (implF.map (fun f => (f.year, f.full)))}"
-    else if !sameTable md (implF.map (fun f => (f.year, f.dflt))) then
+    else if !(sameCents mf md (implF.map (fun f => (f.year, f.dflt)))).1 then
       some s!"security {si} footer (default): model {showFoot md} impl {showFoot (implF.map (fun f => (f.year, f.dflt)))}"
     else
       -- rendered rows carry the deltas' gains
@@ -112,7 +128,7 @@ def gainsDiff (p : GainsParsed) : Option String :=
     let md := aggTable false agg
     if !sameTable ma (p.agg.map (fun f => (f.year, f.full))) then
       some s!"aggregate (full): model {showFoot ma} impl {showFoot (p.agg.map (fun f => (f.year, f.full)))}"
-    else if !sameTable md (p.agg.map (fun f => (f.year, f.dflt))) then
+    else if !(sameCents ma md (p.agg.map (fun f => (f.year, f.dflt)))).1 then
       some s!"aggregate (default): model {showFoot md} impl {showFoot (p.agg.map (fun f => (f.year, f.dflt)))}"
     else none
 
@@ -190,6 +206,14 @@ def runGains (c : Case) : Res :=
     else if p.result ≠ "ok" then
       { verdict := "DIFF", tags := "dk=panic" :: tags, msg := s!"implementation: {p.result} {p.resultMsg}" }
     else
+      let results : List SecResult := p.ok.map (fun (si, o) =>
+        { ok := o, rows := (p.grows.filter (·.1 == si)).map (·.2) })
+      let nearSec := (p.ok.zip results).any (fun ((si, _), r) =>
+        let g := tableGains yearOfJd r
+        (sameCents (footer true g) (footer false g) ((footOf p si).map (fun f => (f.year, f.dflt)))).2)
+      let agg := aggGains id id (completed yearOfJd results)
+      let nearAgg := (sameCents (aggTable true agg) (aggTable false agg) (p.agg.map (fun f => (f.year, f.dflt)))).2
+      let tags := if nearSec || nearAgg then "near=1" :: tags else tags
       match gainsOracle p, gainsDiff p with
       | some e, d => { verdict := "ORACLE", tags := "of=C06" :: tags,
                        msg := e ++ (match d with | some x => " || model: " ++ x | none => "") }
